@@ -114,8 +114,10 @@ CLAIMED = {
   note=SPEC_NOTE, technique="Lean 4 proof over a total model of value equality + differential provenance pairs + content-equality oracle", ref="DESIGN.md §6 C19"),
  "C01": dict(
   text="Lean 4 theorems (stage 1 of the soundness proof): value-in-type membership by contents (hasTy) for the whole type "
-       "language; soundness of the subtype relation — if A matches B every first-order, cell-free value of A is a value of B "
-       "(induction on type size through all arms of Type::matches, unions on both sides, struct width/depth, tuples, arrays); "
+       "language; soundness of the subtype relation — if A matches B every value of A is a value of B, for ALL values incl. "
+       "functions and cells nested anywhere and all well-formed A, B (matches_sound: induction on type size through all arms of "
+       "Type::matches, unions on both sides, struct width/depth, tuples, arrays; functions by transitivity of matches, cells by "
+       "transitivity of ==; also without any well-formedness hypothesis for first-order cell-free values); "
        "union / array membership; every integer arm regenerated from the sources yields an int, comparisons a bool, float and "
        "string operators their kind; indexing yields a member of the element type. The evaluator-level statement (every value "
        "produced by an accepted program inhabits the static type of the instruction that produced it) is NOT proved: for the "
